@@ -404,16 +404,31 @@ def where(body, line=None):
     return mirutil.where(body, line=line)
 
 
-def callee_closure(facts, roots, crate=None):
+CHA_TRAITS = ('dasp_sample::Sample', 'dasp_sample::FloatSample', 'dasp_sample::SignedSample', 'dasp_frame::Frame', 'dasp_sample::conv::ToSample',
+              'dasp_sample::conv::FromSample', 'dasp_sample::conv::Duplex')
+
+
+def callee_closure(facts, roots, crate=None, cha=False):
     """paths of all bodies reachable from the bodies named in `roots` through resolved call terminators and closure
-    construction (the closures defined inside a reached body are reached); restricted to `crate` when given"""
+    construction (the closures defined inside a reached body are reached); restricted to `crate` when given.
+    cha=True: a call of a method of the value traits (CHA_TRAITS: Sample, Frame, the conversion traits) that stays
+    generic reaches every implementation of that method in the workspace.  Calls through the *environment* traits
+    (Signal sources, iterators, closures, interpolators, slices) are not expanded: what a caller plugs in there is
+    the caller's."""
     seen = {}
     work = [facts.body(r) if isinstance(r, str) else r for r in roots]
     work = [b for b in work if b is not None]
     clos = {}
-    for b in facts.bodies.values() if isinstance(facts.bodies, dict) else facts.bodies:
+    for b in facts.bodies.values():
         if b['kind'] == 'Closure':
             clos.setdefault(b['path'].split('::{closure')[0], []).append(b)
+    impl_items = {}
+    if cha:
+        for i in facts.impls:
+            if i.get('trait') in CHA_TRAITS:
+                for it in i['items']:
+                    if it.get('path'):
+                        impl_items.setdefault((i['trait'], it['name']), []).append(it['path'])
     while work:
         b = work.pop()
         if b['path'] in seen:
@@ -427,7 +442,91 @@ def callee_closure(facts, roots, crate=None):
                 continue
             cal = t['callee']
             res = cal.get('res') or {}
-            tgt = facts.by_hash.get(res.get('hash')) or facts.by_hash.get(cal.get('hash'))
+            tgt = facts.by_hash.get(res.get('hash'))
             if tgt is not None and 'blocks' in tgt:
                 work.append(tgt)
+                continue
+            tgt = facts.by_hash.get(cal.get('hash'))
+            if tgt is not None and 'blocks' in tgt:
+                work.append(tgt)
+            if cha and cal.get('trait'):
+                for p in impl_items.get((cal['trait'], cal['name']), ()):
+                    ib = facts.body(p)
+                    if ib is not None:
+                        work.append(ib)
     return {p for p, b in seen.items() if crate is None or b.get('crate') == crate}
+
+
+def fixed_float_arith(facts, body):
+    """(op, type, line) of every arithmetic binary operation of `body` performed in a *fixed* float width (f32 / f64
+    operands), as opposed to the generic float companion of a sample format"""
+    out = []
+
+    def ty_of(o):
+        if o[0] == 'c':
+            return o[1].get('ty')
+        if o[0] in ('cp', 'mv') and not o[1][1]:
+            return body['locals'][o[1][0]]
+        return None
+    for blk in body['blocks']:
+        for st in blk['s']:
+            if st[0] == '=' and st[2][0] == 'bin' and st[2][1] in ('Add', 'Sub', 'Mul', 'Div', 'Rem'):
+                tys = {ty_of(st[2][2]), ty_of(st[2][3])}
+                f = tys & {'f32', 'f64'}
+                if f:
+                    out.append((st[2][1], sorted(f)[0], st[3] if len(st) > 3 else None))
+    return out
+
+
+COVERED_OVERRIDES = {
+    'core::iter::traits::iterator::Iterator': ('next', 'size_hint'),
+    'core::iter::traits::exact_size::ExactSizeIterator': ('len',),
+    'core::iter::traits::double_ended::DoubleEndedIterator': ('next_back',),
+    'dasp_signal::Signal': ('next', 'is_exhausted'),
+}
+
+
+def check_overrides(run, cx, cfg, rule, owns, evaluated=None, minimum=1):
+    """Inventory (fail closed): for the iterator / Signal impls of the types this property owns (`owns(adt path)`),
+    a method that overrides a *provided* trait method beyond the ones the rules cover (COVERED_OVERRIDES), or -- when
+    `evaluated` is given -- a covered one that no rule of this check evaluated, is code the property reaches
+    (`nth`, `fold`, `size_hint` ... are what `skip`, `step_by`, `collect` call) and for which nothing was
+    established: reported as unproven, naming the function."""
+    n = 0
+    for i in cx.facts.impls:
+        tr = i.get('trait')
+        if tr not in COVERED_OVERRIDES:
+            continue
+        t = cx.facts.ty(i['self_ty'])
+        path = t.get('path') if t.get('k') == 'adt' else i['self_ty']
+        if not owns(path):
+            continue
+        for it in i['items']:
+            if not it.get('path') or cx.body(it['path']) is None:
+                continue
+            n += 1
+            if it['name'] not in COVERED_OVERRIDES[tr]:
+                run.unproven(rule, it['path'], cfg, 'overrides the provided method `%s` of %s: callers such as skip / step_by / collect reach it, and this check has no rule '
+                             'for it (the property was established for the provided implementation built on next())' % (it['name'], tr.rsplit('::', 1)[-1]), where=where(cx.body(it['path'])))
+            elif evaluated is not None and it['path'] not in evaluated:
+                run.unproven(rule, it['path'], cfg, 'no rule of this check evaluated this method', where=where(cx.body(it['path'])))
+            else:
+                run.ok(rule, it['path'], cfg, nontrivial=False)
+    run.floor(rule, 'iterator / Signal methods of the owned types (%s)' % cfg, n, minimum)
+    return n
+
+
+def is_forward(cx, fn, callee_suffix, field=0, extra_args=()):
+    """fn is `self.<field>.<callee>(extra..)` returned unchanged"""
+    body = cx.body(fn)
+    if body is None:
+        return None
+    ps = returning(cx.paths(fn, inline=False))
+    if len(ps) != 1:
+        return False
+    evs = call_events(ps[0], effectful_only=False)
+    if len(evs) != 1:
+        return False
+    e = evs[0][1]
+    return (e.get('rpath') or e['path']).endswith(callee_suffix) and e['args'][0] == ('ref', (('P', ('param', 1)), (('f', field),))) \
+        and list(e['args'][1:]) == list(extra_args) and ps[0]['ret'] == ('ret', evs[0][0])
